@@ -401,6 +401,12 @@ def pop(m, k): return m.pop(k)
 def clear(x): x.clear()
 def aslist(r): return [x for x in r]
 def iteridx(r, i): return [x for x in r][i]
+def itemsget(r, k): return dict(r)[k]
+def itemsget2(r, k): return {kk: vv for kk, vv in dict(r).items()}[k]
+def updget(r, k):
+    d = {}
+    d.update(r)
+    return d[k]
 def listidx(r, i): return list(r)[i]
 def foridx(r, i):
     n = len(r)
